@@ -131,3 +131,32 @@ Proof.
   intros c bx uw uh ud [H1 [H2 [H3 [H4 [H5 [H6 [H7 [H8 [H9 [H10 H11]]]]]]]]]]. apply whole_derivative; assumption.
 Qed.
 Print Assumptions C01_rq_whole_spline_logabsdet_is_log_derivative.
+
+(* ---- LogTanh (constants and pieces as generated): the logarithmic tails meet the tanh piece at the cut point, have the
+   positive slope alpha / |x|, and the returned log-abs-det is the logarithm of that slope; the inverse tails undo them ---- *)
+From NF Require Import Proofs.LogTanhP.
+Theorem C01_logtanh_tails : forall c : R, 0 < c ->
+  let alpha := logtanh_const_alpha Rops c 0 in let beta := logtanh_const_beta Rops c alpha in
+  let icp := logtanh_const_inv_cut_point Rops c alpha in
+  (logtanh_fwd_outputs_at_mask_right Rops c 0 alpha beta c icp = logtanh_fwd_outputs_at_mask_middle Rops c 0 alpha beta c icp /\
+   logtanh_fwd_outputs_at_mask_left Rops (- c) 0 alpha beta c icp = logtanh_fwd_outputs_at_mask_middle Rops (- c) 0 alpha beta c icp) /\
+  (forall x, c < x ->
+     is_derive (fun t => logtanh_fwd_outputs_at_mask_right Rops t 0 alpha beta c icp) x (alpha / x) /\ 0 < alpha / x /\
+     logtanh_fwd_logabsdet_at_mask_right Rops x 0 alpha beta c icp = ln (alpha / x) /\
+     logtanh_inv_outputs_at_mask_right Rops (logtanh_fwd_outputs_at_mask_right Rops x 0 alpha beta c icp) 0 alpha beta c icp = x) /\
+  (forall x, x < - c ->
+     is_derive (fun t => logtanh_fwd_outputs_at_mask_left Rops t 0 alpha beta c icp) x (- alpha / x) /\ 0 < - alpha / x /\
+     logtanh_fwd_logabsdet_at_mask_left Rops x 0 alpha beta c icp = ln (- alpha / x) /\
+     logtanh_inv_outputs_at_mask_left Rops (logtanh_fwd_outputs_at_mask_left Rops x 0 alpha beta c icp) 0 alpha beta c icp = x).
+Proof.
+  intros c Hc. cbv zeta. split; [apply logtanh_continuous_at_cut; exact Hc|].
+  split; [intros x Hx; apply logtanh_right_tail; assumption | intros x Hx; apply logtanh_left_tail; assumption].
+Qed.
+Print Assumptions C01_logtanh_tails.
+
+(* ---- the cubic spline bin: the returned log-abs-det is the logarithm of the derivative of the returned output ---- *)
+From NF Require Import Proofs.SplineCubicP.
+Theorem C01_cubic_bin : forall xl w yl h dl dr x : R,
+  is_derive (cfwd xl w yl h dl dr) x (cder xl w h dl dr x) /\ clad xl w yl h dl dr x = ln (cder xl w h dl dr x).
+Proof. intros. split; [apply cubic_derive | apply cubic_lad_is_ln_derivative]. Qed.
+Print Assumptions C01_cubic_bin.
